@@ -102,7 +102,7 @@ static int worker(const std::string &mode, uint64_t from, uint64_t to, const std
   for (uint64_t seed = from; seed < to; seed++) {
     printf("RUN %llu\n", (unsigned long long)seed);
     fflush(stdout);
-    arm_cpu_guard(mode == "ansic" ? 900 : 120);
+    arm_cpu_guard(mode == "ansic" ? 900 : mode == "ansichist" ? 240 : 60);
     Plan p = make_plan(mode, seed);
     ExecOptions o;
     o.use_twin = (mode != "perturb" && mode != "ansic");
@@ -145,7 +145,7 @@ static int replay(const std::string &path, bool keep_log, bool announce) {
   std::string err;
   if (!plan_from_text(read_file(path), &p, &err)) { fprintf(stderr, "bad plan: %s\n", err.c_str()); return 2; }
   if (p.mode != "perturb" && p.mode != "ansic") oracle_start();
-  arm_cpu_guard(p.mode == "ansic" ? 900 : 120);
+  arm_cpu_guard(p.mode == "ansic" ? 900 : p.mode == "ansichist" ? 240 : 60);
   ExecOptions o;
   o.use_twin = (p.mode != "perturb" && p.mode != "ansic");
   o.keep_log = keep_log;
